@@ -51,13 +51,14 @@ Theorem C03_polarization_by_name : forall p,
   name_letters (pm_to_str p) = Some (pump_polarization p, signal_polarization p, idler_polarization p).
 Proof. exact polarization_by_name. Qed.
 
-(* momentum: co-propagating setup, signal polar angle in [0, pi/2), closing vector kp - ks - k_eff z pointing forward.
-   Then sqrt/asin are defined, the idler direction IS the unit closing vector (cross product zero, dot product positive),
-   and the residual mismatch at the centre frequencies is parallel to the idler.
-   The hypothesis 0 <= ths is forced by the code: see Findings/C03_negative_theta.v (for every ths < 0 the statement fails). *)
+(* momentum: co-propagating setup, signal polar angle in (-pi/2, pi/2) (either sign), closing vector kp - ks - k_eff z
+   pointing forward.  Then sqrt/asin are defined, the idler direction IS the unit closing vector (cross product zero, dot
+   product positive), and the residual mismatch at the centre frequencies is parallel to the idler.
+   (Before /repo 4e30e73 the code multiplied the angle by signum(theta_s) once more and the statement failed for every
+   negative angle: Findings/C03_negative_theta.v keeps that record against a pinned copy of the old formula.) *)
 Theorem C03_parallel : forall index pm spol ppol phis ths ls lp ws wp pp,
   0 < lp -> 0 < ls -> pp_defined pp -> - (PI / 2) < ths < PI / 2 ->
-  forall i, 0 <= ths ->
+  forall i,
   0 < vz (closing_vector index (beam_new spol phis ths ls ws) (pump_new ppol lp wp) pp) ->
   optimum_idler index pm false (beam_new spol phis ths ls ws) (pump_new ppol lp wp) pp = Some i ->
   optimum_defined index (beam_new spol phis ths ls ws) (pump_new ppol lp wp) pp /\
@@ -81,21 +82,21 @@ Proof. exact collinear. Qed.
 (* beyond the property text: a counter-propagating setup takes the pi - asin branch and closes a backward closing vector *)
 Theorem C03_parallel_counter : forall index pm spol ppol phis ths ls lp ws wp pp,
   0 < lp -> 0 < ls -> pp_defined pp -> - (PI / 2) < ths < PI / 2 ->
-  forall i, 0 <= ths ->
+  forall i,
   vz (closing_vector index (beam_new spol phis ths ls ws) (pump_new ppol lp wp) pp) < 0 ->
   optimum_idler index pm true (beam_new spol phis ths ls ws) (pump_new ppol lp wp) pp = Some i ->
   b_dir i = vscale (/ vnorm (closing_vector index (beam_new spol phis ths ls ws) (pump_new ppol lp wp) pp))
                    (closing_vector index (beam_new spol phis ths ls ws) (pump_new ppol lp wp) pp).
 Proof. exact parallel_counter. Qed.
 
-(* non-vacuity: constant index 3/2, pump wavelength 1, signal wavelength 2, signal polar angle 1/10, no poling:
+(* non-vacuity: constant index 3/2, pump wavelength 1, signal wavelength 2, no poling, signal polar angle +1/10 and -1/10:
    the hypotheses of C03_parallel hold and an idler is produced *)
-Example C03_nonvacuous :
+Example C03_nonvacuous : forall t, - (1 / 10) <= t <= 1 / 10 ->
   let index := fun (_ : R) (_ : vec) (_ : polarization) => 3 / 2 in
-  (0 < 1 /\ 0 < 2 /\ pp_defined PPOff /\ - (PI / 2) < 1 / 10 < PI / 2 /\ 0 <= 1 / 10) /\
-  0 < vz (closing_vector index (beam_new Ordinary 0 (1 / 10) 2 (1, 1)) (pump_new Ordinary 1 (1, 1)) PPOff) /\
-  exists i, optimum_idler index Type2_e_eo false (beam_new Ordinary 0 (1 / 10) 2 (1, 1)) (pump_new Ordinary 1 (1, 1)) PPOff = Some i.
-Proof. exact nonvacuous. Qed.
+  (0 < 1 /\ 0 < 2 /\ pp_defined PPOff /\ - (PI / 2) < t < PI / 2) /\
+  0 < vz (closing_vector index (beam_new Ordinary 0 t 2 (1, 1)) (pump_new Ordinary 1 (1, 1)) PPOff) /\
+  exists i, optimum_idler index Type2_e_eo false (beam_new Ordinary 0 t 2 (1, 1)) (pump_new Ordinary 1 (1, 1)) PPOff = Some i.
+Proof. exact nonvacuous_at. Qed.
 
 Example C03_nonvacuous_poled : pp_defined (PPOn (1 / 100) false) /\ (1 : R) <> 0.
 Proof. split; [unfold pp_defined; Lra.lra | Lra.lra]. Qed.
